@@ -21,4 +21,6 @@ def run(tier, replay=None):
                     timeout=300 if tier == "quick" else 3000)
     ck.add_run(res)
     ck.handle_violations(res, rp, env=env, timeout=30, per_key=3)
+    if tier == "thorough":
+        cross_solver(ck, mod, hp, "main", "^Harness_C11_(String|Raw)$", env={"VERIF_N": "3"})
     return ck.finish()
